@@ -76,6 +76,9 @@ def file_cases(tier, seed):
         add(kind="concurrent", size=rng.choice([200001, 4 * 65536 + 3]), threads=4 + (i % 3), reps=40 if not T else 150)
     for c in big_and_odd_cases(tier, rng):
         add(**c)
+    # a file written just now (modification time = the current second): same strong tag from every
+    # instance, also one opened more than a second later
+    add(kind="fresh", size=20, wait_ms=1100)
     return cases
 
 
@@ -164,6 +167,20 @@ def dir_cases(tier, seed):
         for hdr, abs_ae in AE:
             for auto in (True, False):
                 cases.append({"path": p, "abs": {"segs": p.split("/"), "nul": False}, "ae": hdr, "abs_ae": abs_ae, "auto_gzip": auto})
+    # paths around PATH_MAX (4096 bytes including the terminating NUL): `.` and empty segments as padding,
+    # every total length 4086..4100, tails that would turn into something else if the path were cut
+    for total in range(4086, 4101):
+        for tail in (["a"], ["..a"], ["..hidden"], ["sub", "c"], ["secret"], ["..."]):
+            t = "/".join(tail)
+            pad = total - len(t)
+            segs = ["sub"] if pad % 2 == 0 else ["sub", ""]       # "sub/" (4 bytes) or "sub//" (5)
+            pad -= 4 if pad % 2 == 0 else 5
+            segs = segs + ["."] * (pad // 2) + tail
+            path = "/".join(segs)
+            assert len(path) == total, (len(path), total)
+            hdr, abs_ae = rng.choice(AE[:2])
+            cases.append({"path": path, "abs": {"segs": segs, "nul": False}, "ae": hdr, "abs_ae": abs_ae,
+                          "auto_gzip": rng.random() < 0.5})
     for i, c in enumerate(cases):
         c["id"] = i + 1
     return cases
